@@ -263,12 +263,38 @@ func (vc *VC) dryRunLoop(fr *frame, header *ssa.BasicBlock, st *State, checkpoin
 	vc.writes = saved
 	// an index term is usable only if it was defined before the loop and does not depend on a
 	// component the loop writes
-	for comp, ws := range w {
+	vc.normalizeWrites(w, checkpoint)
+	// propagate to an enclosing dry run
+	if saved != nil {
+		for comp, ws := range w {
+			if ws.whole {
+				vc.noteWrite(comp, Term{})
+			}
+			if ws.fresh {
+				vc.noteWriteFresh(comp)
+			}
+			for _, i := range ws.idxs {
+				vc.noteWrite(comp, i)
+			}
+		}
+	}
+	return w
+}
+
+// normalizeWrites turns the raw write set of a dry run into one usable at the cut point: index
+// terms are rewritten to names that exist before the checkpoint; writes to objects allocated during
+// the dry run become "fresh only"; anything else makes the component wholly written.
+func (vc *VC) normalizeWrites(w map[string]*writeSet, checkpoint int) {
+	for _, ws := range w {
 		if ws.whole {
 			continue
 		}
 		var keep []Term
 		for _, idx := range ws.idxs {
+			if vc.freshRefs[idx.S] && MaxID(idx) > checkpoint {
+				ws.fresh = true
+				continue
+			}
 			exp, ok := vc.script.ExpandTo(idx, checkpoint)
 			if !ok || vc.dependsOnWritten(exp, w) {
 				ws.whole = true
@@ -286,20 +312,7 @@ func (vc *VC) dryRunLoop(fr *frame, header *ssa.BasicBlock, st *State, checkpoin
 			}
 		}
 		ws.idxs = keep
-		_ = comp
 	}
-	// propagate to an enclosing dry run
-	if saved != nil {
-		for comp, ws := range w {
-			if ws.whole {
-				vc.noteWrite(comp, Term{})
-			}
-			for _, i := range ws.idxs {
-				vc.noteWrite(comp, i)
-			}
-		}
-	}
-	return w
 }
 
 // dependsOnWritten reports whether the term (transitively through definitions) mentions a heap
@@ -346,6 +359,7 @@ func (vc *VC) havocWrites(st *State, w map[string]*writeSet) {
 		return
 	}
 	var targets []modTarget
+	var freshComps []string
 	allocates := false
 	for comp, ws := range w {
 		if comp == allocComp {
@@ -354,12 +368,17 @@ func (vc *VC) havocWrites(st *State, w map[string]*writeSet) {
 		}
 		if ws.whole {
 			targets = append(targets, modTarget{comp: comp, whole: true})
+			continue
+		}
+		if ws.fresh {
+			freshComps = append(freshComps, comp)
+			allocates = true
 		}
 		for _, i := range ws.idxs {
 			targets = append(targets, modTarget{comp: comp, idx: i})
 		}
 	}
-	vc.applyHavoc(st, targets, allocates, nil)
+	vc.applyHavoc(st, targets, allocates, freshComps)
 }
 
 // execRegion runs the blocks of region starting at start (whose phis/header handling are skipped).
@@ -473,6 +492,32 @@ func (vc *VC) setupMonitor() {
 			vc.lockComp = tk + "." + m.LockField + ".state"
 			vc.registerComp(vc.lockComp, compInfo{Sort: ArrSort(SInt, SInt), Depth: 1, Ghost: true})
 		}
+	}
+}
+
+// callsViaCheck: interface methods of a guarded field of a struct-valued receiver (a wrapper such as
+// threadSafeDuplex) may only be invoked while the wrapper's mutex is held.
+func (vc *VC) callsViaCheck(fr *frame, st *State, site ssa.Instruction, recv Term) {
+	if vc.monitor == nil || len(vc.monitor.CallsVia) == 0 || vc.recvStruct == nil {
+		return
+	}
+	for _, f := range vc.monitor.CallsVia {
+		fv, ok := vc.recvStruct.F[f].(Term)
+		if !ok {
+			continue
+		}
+		lockPtr, ok := vc.recvStruct.F[vc.monitor.LockField]
+		if !ok {
+			continue
+		}
+		lt, isPtr := lockPtr.(PtrVal)
+		if !isPtr {
+			continue
+		}
+		loc := vc.lockStateLoc(Loc{canonicalPrefix(lt.Elem), lt.Loc.Idx})
+		state := vc.readCell(st.heap, loc)
+		// semantic: if the receiver of this call is the guarded field, the mutex must be held
+		vc.oblige(st, "lock", fmt.Sprintf("lock.held[%s]@%s", f, vc.posHint(fr, site)), vc.posString(site.Pos()), Implies(Eq(recv, fv), Eq(state, IntLit(2))))
 	}
 }
 
